@@ -140,7 +140,8 @@ def runner_sub(ctx, rule, origin):
 
 
 # private helpers and the public method they serve (used when the helper no longer exists as a function): name -> (caller, amount reserved there)
-INLINED_INTO = {'append_elements': ('append', ('load', ('fld', ('deref', ('param', 2)), 'collections::vec::Vec.len'), 0))}
+INLINED_INTO = {'append_elements': ('append', ('load', ('fld', ('deref', ('param', 2)), 'collections::vec::Vec.len'), 0)),
+                'extend_with': ('resize', ('app', 'wsub', ('param', 2), ('load', ('fld', ('deref', ('param', 1)), 'collections::vec::Vec.len'), 0)))}
 
 
 def run(ctx, config='rel-all'):
